@@ -231,6 +231,9 @@ def run_shard(shard, only=None):
             cases.append(('cust', 'cust', [v], v, R))
             cases.append(('fld', 'fld', [Obj('Holder', z=1, h=v)], Obj('Holder', z=1, h=v), R))
             cases.append(('seq', 'seq', [[v]], 5, R))
+            # an instance without any member set: nothing but the type marker says what it is
+            ve = Obj(R, **{fn: None for fn, ft in b.flat_fields(R)})
+            cases.append(('arg', 'arg', [ve], ve, R + '(empty)'))
         for (r1, R1), (r2, R2) in itertools.product(enumerate(descs), repeat=2):
             l = [instance(b.flat_fields, R1, 3), instance(b.flat_fields, R2, 4)]
             cases.append(('arr', 'arr', [l], l, R1 + '+' + R2))
